@@ -21,7 +21,7 @@ from concurrent.futures import ThreadPoolExecutor
 
 VERIF = os.path.dirname(os.path.dirname(os.path.dirname(os.path.abspath(__file__))))
 SPEC_DIR = os.path.join(VERIF, "spec")
-EVID_DIR = os.path.join(VERIF, "evidence")
+EVID_DIR = os.environ.get("VERIF_EVIDENCE_DIR") or os.path.join(VERIF, "evidence")   # mutant self-tests write elsewhere
 REPLAY_DIR = os.path.join(EVID_DIR, "replay")
 KNOWN_FILE = os.path.join(VERIF, "known_findings.jsonl")
 TLA_CP = "/opt/veriftools/tla/tla2tools.jar:/opt/veriftools/tla/CommunityModules-deps.jar"
